@@ -15,6 +15,12 @@ import (
 func Strip(v ssa.Value) ssa.Value {
 	for {
 		switch x := v.(type) {
+		case *ssa.Parameter:
+			if nv, ok := substituted(x); ok {
+				v = nv
+				continue
+			}
+			return v
 		case *ssa.MakeInterface:
 			v = x.X
 		case *ssa.ChangeInterface:
@@ -107,6 +113,39 @@ func (p Path) HasFields(fs ...string) bool {
 
 // PathOf folds loads through field addresses (and proto getters) into a Path.
 func PathOf(v ssa.Value) Path {
+	p := pathOf(v)
+	for i := 0; i < 4; i++ {
+		// a local struct slot written exactly once (a spilled by-value parameter,
+		// or "x := <-ch") denotes the value stored into it
+		if al, isAl := p.Root.(*ssa.Alloc); isAl && len(p.Fields) > 0 {
+			if sv := SingleStore(al); sv != nil {
+				outer := pathOf(sv)
+				p = Path{Root: outer.Root, Fields: append(append([]string{}, outer.Fields...), p.Fields...)}
+				continue
+			}
+		}
+		nv, ok := substituted(p.Root)
+		if !ok {
+			break
+		}
+		var outer Path
+		if _, isFv := p.Root.(*ssa.FreeVar); isFv {
+			// the free variable is the address of the captured variable
+			outer = Path{Root: nv}
+			if al, isAl := nv.(*ssa.Alloc); isAl {
+				if sv := SingleStore(al); sv != nil {
+					outer = pathOf(sv)
+				}
+			}
+		} else {
+			outer = pathOf(nv)
+		}
+		p = Path{Root: outer.Root, Fields: append(append([]string{}, outer.Fields...), p.Fields...)}
+	}
+	return p
+}
+
+func pathOf(v ssa.Value) Path {
 	v = Strip(v)
 	switch x := v.(type) {
 	case *ssa.UnOp:
@@ -171,6 +210,10 @@ func SingleStore(al *ssa.Alloc) ssa.Value {
 		case *ssa.UnOp:
 		case *ssa.MakeClosure:
 		case *ssa.DebugRef:
+		case *ssa.FieldAddr:
+			if !onlyRead(u, 0) {
+				return nil
+			}
 		default:
 			return nil
 		}
@@ -179,6 +222,26 @@ func SingleStore(al *ssa.Alloc) ssa.Value {
 		return stored
 	}
 	return nil
+}
+
+// onlyRead: the address (of a field of a local slot) is only loaded from.
+func onlyRead(addr ssa.Value, depth int) bool {
+	refs := addr.Referrers()
+	if refs == nil || depth > 3 {
+		return false
+	}
+	for _, r := range *refs {
+		switch u := r.(type) {
+		case *ssa.UnOp, *ssa.DebugRef:
+		case *ssa.FieldAddr:
+			if !onlyRead(u, depth+1) {
+				return false
+			}
+		default:
+			return false
+		}
+	}
+	return true
 }
 
 func structOf(t types.Type) *types.Struct {
